@@ -180,7 +180,10 @@ def judge(case, steps):
             labels.add("single-or-partial-write")
             # (not with a volatile device: an unmodified value is not buffered under only_write_modified_values, and
             # only the next full cycle - law (ii) - restores what a device reset destroyed)
-            if st_.post == "OK" and st_.exc is None and not failed and not volatile:
+            # a write_batch call that returns normally in state OK is a write cycle that succeeded, also when every value
+            # was filtered as unchanged; a single write() counts when it reached the hardware
+            if (st_.post == "OK" and st_.exc is None and not failed and not volatile
+                    and (st_.kind == "write_batch" or any(e[0] == "w" for e in st_.ev))):
                 for r in H.WRITABLE:
                     if r in st_.regs or not history[r] or not history[r][-1][1] or r in tainted:
                         continue
@@ -236,7 +239,7 @@ def check_case(case) -> list[Violation]:
 
 FRAGS_C24 = (["cycle"] * 16 + ["cycle_same"] * 8 + ["write"] * 1 + ["write_batch"] * 1 + ["advance"] * 3 + ["tick"] * 2
              + ["fail_write"] * 5 + ["fail_read"] * 2 + ["fail_connect"] * 1 + ["outage_on"] * 2 + ["outage_off"] * 3
-             + ["to_reconnect"] * 3 + ["to_error"] * 1 + ["recover"] * 4 + ["outage_story"] * 3 + ["long_outage_story"] * 2)
+             + ["to_reconnect"] * 3 + ["to_error"] * 1 + ["recover"] * 4 + ["outage_story"] * 3 + ["long_outage_story"] * 2 + ["flush_fault_story"] * 2)
 
 
 def _fragment(draw, kind, prev_cycle):
@@ -254,6 +257,21 @@ def _fragment(draw, kind, prev_cycle):
                 ops += [["advance", draw(st.sampled_from([18001, 3600, 0.1]))]] + H._fragment(draw, "cycle", prev_cycle)
         ops += [["fail_write", False], ["fail_read", False], ["fail_connect", False], ["tick", 6]]
         for _ in range(draw(st.integers(1, 4))):
+            ops += [["cycle", list(prev_cycle)]] if draw(st.booleans()) else H._fragment(draw, "cycle", prev_cycle)
+        return ops
+    if kind == "flush_fault_story":
+        # two registers are buffered by a failing partial batch; the hardware is back; the next partial write succeeds and
+        # the n-th physical write of the flush behind it fails (swallowed by the decorator); further partial batches
+        # - some repeating the values just written - follow before the full cycles resume
+        a, b_ = draw(st.permutations(H.WRITABLE))[:2]
+        c = [r for r in H.WRITABLE if r not in (a, b_)][0]
+        va, vb, vc = draw(H.value_st), draw(H.value_st), draw(H.value_st)
+        ops = [["fail_write", True], ["write_batch", [[a, va], [b_, vb]]], ["fail_write", False],
+               ["fail_write_nth", draw(st.sampled_from([2, 3, 3]))], ["write_batch", [[c, vc]]]]
+        for _ in range(draw(st.integers(1, 3))):
+            ops.append(draw(st.sampled_from([["write_batch", [[c, vc]]], ["write_batch", [[c, vc]]], ["write", c, vc],
+                                             ["write_batch", [[c, draw(H.value_st)]]]])))
+        for _ in range(draw(st.integers(0, 2))):
             ops += [["cycle", list(prev_cycle)]] if draw(st.booleans()) else H._fragment(draw, "cycle", prev_cycle)
         return ops
     if kind == "long_outage_story":
